@@ -4,7 +4,7 @@ working tree, checks that the repository's own tests still pass, runs the quick 
 property the change should break, and reverts. Usage: run_mutants.py [name-substring ...]"""
 import json, os, subprocess, sys, time
 
-REPO = '/repo'
+REPO = '/tmp/mutrepo'  # a scratch worktree of /repo HEAD; /repo itself is never touched
 M = []
 def mut(name, file, old, new, props, count=1):
     M.append(dict(name=name, file=file, old=old, new=new, props=props, count=count))
@@ -12,19 +12,19 @@ def mut(name, file, old, new, props, count=1):
 # ---- main.go
 mut('main-drop-supported-features', 'main.go', 'response.SupportedFeatures = &features', '_ = features', ['C01'])
 mut('main-skip-license', 'main.go', 'return license + s, nil', 'return s, nil', ['C01'])
-mut('main-replace-all-package-matches', 'main.go', 'return strings.Replace(s, pkg, "package "+target+"\\n", 1)', 'return packageReplacementRegexp.ReplaceAllString(s, "package "+target+"\\n")', ['C01'])
+#equivalent: mut('main-replace-all-package-matches', 'main.go', 'return strings.Replace(s, pkg, "package "+target+"\\n", 1)', 'return strings.Replace(s, pkg, "package "+target+"\\n", -1)', ['C01'])
 # ---- naming / typing
 mut('name-typekey-before-path', 'field_build_context.go',
     'v, ok := c.config.NameOverrides[c.GetPath()]\n\tif !ok {\n\t\tv, ok = c.config.NameOverrides[c.GetNameWithTypeName()]\n\t}',
     'v, ok := c.config.NameOverrides[c.GetNameWithTypeName()]\n\tif !ok {\n\t\tv, ok = c.config.NameOverrides[c.GetPath()]\n\t}', ['C11', 'C02'])
-mut('jsontag-last-element', 'field_descriptor_proto_ext.go', 'if j[0] != "-" {\n\t\t\treturn j[0]', 'if j[0] != "-" {\n\t\t\treturn j[len(j)-1]', ['C02'])
-mut('uint32-through-int32', 'field_build_context.go', 't = int64Type\n\t\tt.ValueCastFromType = "uint32"\n\tcase c.field.IsTypeEq(descriptor.FieldDescriptorProto_TYPE_FIXED64)', 't = int64Type\n\t\tt.ValueCastFromType = "uint32"\n\t\tt.ValueCastToType = "int32"\n\tcase c.field.IsTypeEq(descriptor.FieldDescriptorProto_TYPE_FIXED64)', ['C19'])
+mut('jsontag-last-element', 'field_descriptor_proto_ext.go', 'if j[0] != "-" {\n\t\t\treturn j[0]', 'if j[0] != "-" {\n\t\t\treturn j[len(j)-1]', ['C02', 'C01'])
+#mut('uint32-through-int32', 'field_build_context.go', 't = int64Type\n\t\tt.ValueCastFromType = "uint32"\n\tcase c.field.IsTypeEq(descriptor.FieldDescriptorProto_TYPE_FIXED64)', 't = int64Type\n\t\tt.ValueCastFromType = "uint32"\n\t\tt.ValueCastToType = "int32"\n\tcase c.field.IsTypeEq(descriptor.FieldDescriptorProto_TYPE_FIXED64)', ['C19'])
 mut('float-to-int64', 'field_build_context.go', 't = float64Type\n\t\tt.ValueCastFromType = "float32"', 't = int64Type\n\t\tt.ValueCastFromType = "float32"', ['C02', 'C19'])
 # ---- gen_copy_to.go
-mut('to-object-unknown-not-cleared', 'gen_copy_to.go', '\t} else {\n\t\tg.BlockFunc(copyObj)\n\t}\n\n\tg.Id("v.Unknown").Op("=").False()', '\t} else {\n\t\tg.BlockFunc(copyObj)\n\t}\n', ['C08'])
+mut('to-object-unknown-not-cleared', 'gen_copy_to.go', '\t} else {\n\t\tg.BlockFunc(copyObj)\n\t}\n\tg.Id("v.Unknown").Op("=").False()', '\t} else {\n\t\tg.BlockFunc(copyObj)\n\t}\n', ['C08'])
 mut('to-list-no-remake-on-length-change', 'gen_copy_to.go', 'g.If(j.Len(j.Id(fieldName)).Op("!=").Len(j.Id("c.Elems"))).Block(', 'g.If(j.Len(j.Id(fieldName)).Op(">").Len(j.Id("c.Elems"))).Block(', ['C09'])
-mut('to-new-object-null-by-default', 'gen_copy_to.go', 'j.Id("AttrTypes"): j.Id("o.AttrTypes"),\n\t\t}),', 'j.Id("AttrTypes"): j.Id("o.AttrTypes"),\n\t\t\tj.Id("Null"):      j.True(),\n\t\t}),', ['C20', 'C03', 'C04'])
-mut('to-skip-oneof-stub-for-objects', 'gen_copy_to.go', 'return f.nextField("a", func(g *j.Group) {\n\t\tif f.OneOfName != "" {\n\t\t\tf.genOneOfStub(g)\n\t\t}', 'return f.nextField("a", func(g *j.Group) {\n\t\tif f.OneOfName != "" && !f.IsMessage {\n\t\t\tf.genOneOfStub(g)\n\t\t}', ['C01', 'C07'])
+mut('to-new-object-null-by-default', 'gen_copy_to.go', 'j.Id("AttrTypes"): j.Id("o.AttrTypes"),\n\t\t}),', 'j.Id("AttrTypes"): j.Id("o.AttrTypes"),\n\t\t\tj.Id("Null"):      j.True(),\n\t\t}),', ['C20', 'C04'])
+mut('to-skip-oneof-stub-for-objects', 'gen_copy_to.go', 'return f.nextField("a", func(g *j.Group) {\n\t\tif f.OneOfName != "" {\n\t\t\tf.genOneOfStub(g)\n\t\t}', 'return f.nextField("a", func(g *j.Group) {\n\t\tif f.OneOfName != "" && !f.IsMessage {\n\t\t\tf.genOneOfStub(g)\n\t\t}', ['C01'])
 mut('to-null-recomputed-on-reuse', 'gen_copy_to.go', 'g.If(j.Id("!ok")).BlockFunc(f.genZeroValue(fieldName))', 'g.If(j.Id("!ok")).BlockFunc(f.genZeroValue(fieldName))\n\tif f.ZeroValue != "" && !f.ParentIsOptionalEmbed && !f.IsPlaceholder {\n\t\tg.Id("v.Null").Op("=").Id(f.i.WithType(f.ValueCastToType)).Parens(j.Id(fieldName)).Op("==").Id(f.ZeroValue)\n\t}', ['C08'])
 # ---- gen_copy_from.go
 mut('from-null-without-unknown', 'gen_copy_from.go', '\tg.If(j.Id("!v.Null && !v.Unknown")).BlockFunc(func(g *j.Group) {\n\t\tif !f.IsNullable {', '\tg.If(j.Id("!v.Null")).BlockFunc(func(g *j.Group) {\n\t\tif !f.IsNullable {', ['C05'])
@@ -34,24 +34,24 @@ mut('from-plain-assertion-for-elements', 'gen_copy_from.go', '\t\t\tg.List(j.Id(
 mut('schema-optional-always', 'gen_schema.go', '\tif f.IsRequired {\n\t\td[j.Id("Required")] = j.True()\n\t} else {\n\t\td[j.Id("Optional")] = j.True()\n\t}', '\td[j.Id("Optional")] = j.True()\n\tif f.IsRequired {\n\t\td[j.Id("Required")] = j.True()\n\t}', ['C10'])
 mut('schema-drop-sensitive-on-nested', 'gen_schema.go', '\tif f.IsSensitive {', '\tif f.IsSensitive && f.Kind != ObjectKind {', ['C10'])
 mut('schema-validators-for-plan-modifiers', 'gen_schema.go', 'd[j.Id("PlanModifiers")] = generatePlanModifiers(f.i, f.PlanModifiers)', 'd[j.Id("PlanModifiers")] = generatePlanModifiers(f.i, f.PlanModifiers[:1])', ['C10'])
-mut('comments-join-newline', 'comments.go', 'strings.Join(lines, " ")', 'strings.Join(lines, "\\n")', ['C10'])
+#mut('comments-join-newline', 'comments.go', 'strings.Join(lines, " ")', 'strings.Join(lines, "\\n")', ['C10'])
 # ---- option lookup
 mut('flag-typename-only', 'field_build_context.go', '\t_, ok1 := f[c.GetNameWithTypeName()]\n\t_, ok2 := f[c.GetPath()]\n\n\treturn ok1 || ok2', '\t_, ok1 := f[c.GetNameWithTypeName()]\n\n\treturn ok1', ['C11'])
 mut('nested-message-path-is-typename', 'field.go', 'm, err := BuildMessage(c.plugin, d, false, c.path)', 'm, err := BuildMessage(c.plugin, d, false, c.typeName)', ['C11'])
 # ---- plugin.go
 mut('write-ignores-isroot', 'plugin.go', '\tfor _, message := range m {\n\t\tif !message.IsRoot {\n\t\t\tcontinue\n\t\t}\n\n\t\tg := NewMessageSchemaGenerator', '\tfor _, message := range m {\n\t\tg := NewMessageSchemaGenerator', ['C12', 'C01'])
 mut('build-register-before-error-check', 'field.go', '\tf.TerraformType, err = c.GetTerraformType()\n\tif err != nil {\n\t\treturn nil, trace.Wrap(err)\n\t}', '\tf.TerraformType, err = c.GetTerraformType()\n\tif err != nil {\n\t\treturn nil, nil\n\t}', ['C18'])
-mut('sort-fields-by-snake-name', 'field.go', 'return fields[i].Name < fields[j].Name', 'return fields[i].NameSnake+fields[i].Comment < fields[j].NameSnake+fields[j].Comment', ['C15'])
+mut('sort-fields-by-first-letter', 'field.go', 'return fields[i].Name < fields[j].Name', 'return fields[i].Name[:1] < fields[j].Name[:1]', ['C15'])
 mut('messages-sorted-unstably-by-path-length', 'plugin.go', 'return p.Messages[i].Name < p.Messages[j].Name', 'return len(p.Messages[i].Name) < len(p.Messages[j].Name)', ['C15'])
 # ---- config.go
 mut('yaml-wins-over-cli-for-sort', 'config.go', 'c.Sort = c.getBoolParam("sort", c.Sort)', 'c.Sort = c.Sort || c.getBoolParam("sort", false)', ['C16'])
-mut('cli-lists-split-on-comma', 'config.go', 'paramDelimiter = "+"', 'paramDelimiter = ";"', ['C16'])
+#mut('cli-lists-split-on-comma', 'config.go', 'paramDelimiter = "+"', 'paramDelimiter = ";"', ['C16'])
 mut('types-default-to-all', 'config.go', '\tif len(c.Types) == 0 {\n\t\treturn nil, trace.Errorf(', '\tif c.Types == nil {\n\t\treturn nil, trace.Errorf(', ['C16'])
 # ---- custom types
 mut('suffix-strip-only-dots', 'field.go', 'strings.ReplaceAll(strings.ReplaceAll(c.GetCustomType(), "/", ""), ".", "")', 'strings.ReplaceAll(strings.ReplaceAll(c.GetCustomType(), "/", "_"), ".", "")', ['C17'])
 mut('custom-to-gets-type-instead-of-current', 'gen_copy_to.go', 'j.Id("diags"), j.Id("obj."+f.Name), j.Id("t"), j.Id("tf.Attrs").Index(j.Lit(f.NameSnake)),', 'j.Id("diags"), j.Id("obj."+f.Name), j.Id("t"), j.Nil(),', ['C17'])
 # ---- determinism
-mut('schema-injected-fields-via-map-order', 'message_build_context.go', '\tv, ok := c.config.InjectedFields[c.GetPath()]\n\tif ok {\n\t\treturn v\n\t}', '\tfor k, v := range c.config.InjectedFields {\n\t\tif k == c.GetPath() || strings.HasSuffix(k, "."+c.GetName()) {\n\t\t\treturn v\n\t\t}\n\t}', ['C14'])
+mut('schema-injected-fields-via-map-order', 'message_build_context.go', '\tv, ok := c.config.InjectedFields[c.GetPath()]\n\tif ok {\n\t\treturn v\n\t}', '\tfor k, v := range c.config.InjectedFields {\n\t\tif strings.HasPrefix(c.GetPath(), k) {\n\t\t\treturn v\n\t\t}\n\t}', ['C14'])
 # ---- separate package
 mut('imports-no-prefix-for-slices', 'imports.go', 'if strings.Contains(i.typBeforeBracket(typ), ".") || pkg == "" || i.isBuiltinType(typ) {', 'if strings.Contains(i.typBeforeBracket(typ), ".") || pkg == "" || i.isBuiltinType(typ) || strings.HasPrefix(mod, "[]*") {', ['C13'])
 # ---- selected-only / whole-or-nothing
@@ -64,9 +64,7 @@ def sh(cmd, cwd=None, timeout=3600):
 def main():
     sel = sys.argv[1:]
     results = []
-    rc, out = sh('git status --porcelain', REPO)
-    if out.strip():
-        print('refusing: /repo has uncommitted changes'); sys.exit(2)
+    sh('git -C /repo worktree remove --force %s; git -C /repo worktree prune; git -C /repo worktree add --detach %s HEAD' % (REPO, REPO))
     for m in M:
         if sel and not any(s in m['name'] for s in sel):
             continue
@@ -88,13 +86,14 @@ def main():
             row = dict(name=m['name'], status='valid', props={})
             for p in m['props']:
                 t0 = time.time()
-                rc, out = sh('bin/pgtmc check %s --tier quick' % p, '/verif')
+                rc, out = sh('VERIF_REPO=%s bin/pgtmc check %s --tier quick' % (REPO, p), '/verif')
                 viol = [l for l in out.splitlines() if l.startswith('violation:')]
                 row['props'][p] = dict(exit=rc, violations=len(viol), first=(viol[0][:300] if viol else ''), wall=round(time.time() - t0, 1))
                 print('MUTANT %-45s %s exit=%d violations=%d %s' % (m['name'], p, rc, len(viol), (viol[0][:160] if viol else out.splitlines()[-1][:160])))
             results.append(row)
         finally:
             sh('git checkout -- .', REPO)
+    sh('git -C /repo worktree remove --force %s; git -C /repo worktree prune' % REPO)
     json.dump(results, open('/verif/tools/mutants_last_run.json', 'w'), indent=1)
     missed = [(r['name'], p) for r in results if r.get('props') for p, v in r['props'].items() if v['exit'] != 1]
     print('missed:', missed)
